@@ -1,20 +1,29 @@
 #!/bin/bash
-# For every confirmed seeded change in /verif/seeded: apply it to /repo, run the check of its own
-# property, record the exit code and the rules that fire, undo. Writes /verif/seeded/MATRIX.tsv.
-# (/repo must be clean; nothing else may touch /repo while this runs.)
+# For every variant kept in /verif/seeded (confirmed breaking changes <ID>-mN / <ID>-r2mN / ..., and
+# behaviour-preserving refactorings <ID>-nK): analyse /repo with the patch as an in-memory overlay
+# (`sa crosspatch`, /repo is not touched) with ALL twenty checks and write /verif/seeded/MATRIX.tsv:
+#   variant <TAB> kind <TAB> verdict <TAB> rules of the variant's own property <TAB> rules of other properties
 cd /verif || exit 2
-mkdir -p /tmp/trypatch_out
-OUT=/verif/seeded/MATRIX.tsv
-: > $OUT.tmp
-for d in seeded/C*-m*/ seeded/C*-r2m*/; do
-  [ -f $d/patch.diff ] || continue
-  name=$(basename $d); id=${name%%-*}
-  cd /repo; if ! git diff --quiet; then echo "/repo dirty"; exit 2; fi
-  if ! git apply /verif/$d/patch.diff 2>/dev/null; then echo -e "$name\t$id\tPATCH-DOES-NOT-APPLY\t" >> $OUT.tmp; cd /verif; continue; fi
-  cd /verif; cp known_findings.json /tmp/trypatch_out/
-  out=$(./bin/sa check $id --verif /tmp/trypatch_out 2>&1); code=$?
-  rules=$(echo "$out" | grep -E "^  C[0-9]+\." | awk '{print $1}' | sort -u | tr '\n' ' ')
-  echo -e "$name\t$id\texit=$code\t$rules" >> $OUT.tmp
-  git -C /repo checkout -- .
-done
-mv $OUT.tmp $OUT; cat $OUT
+ls /verif/seeded/C*/patch.diff | xargs -n 12 ./bin/sa crosspatch > /tmp/matrix_raw.txt 2>&1
+python3 - <<'PY'
+import re
+rows=[]
+for l in open('/tmp/matrix_raw.txt'):
+    parts=l.rstrip('\n').split('\t')
+    if len(parts)<2: continue
+    path=parts[0]; rules=parts[2].split() if len(parts)>2 else []
+    name=path.split('/')[-2]; pid=name.split('-')[0]
+    kind='neutral' if re.search(r'-n\d+$',name) else 'breaking'
+    own=[r for r in rules if r.startswith(pid+'.')]; other=[r for r in rules if not r.startswith(pid+'.')]
+    if parts[1] in ('SKIP','LOAD-ERROR'):
+        verdict=parts[1]
+    elif kind=='breaking':
+        verdict='REPORTED' if own else ('reported-by-other-property-only' if other else 'MISSED')
+    else:
+        verdict='silent' if not rules else 'FALSE-ALARM'
+    rows.append((name,kind,verdict,' '.join(own),' '.join(other)))
+rows.sort()
+open('/verif/seeded/MATRIX.tsv','w').write('variant\tkind\tverdict\town_property_rules\tother_property_rules\n'+''.join('\t'.join(r)+'\n' for r in rows))
+from collections import Counter
+print(Counter((r[1],r[2]) for r in rows))
+PY
